@@ -42,7 +42,8 @@ def blocks(thorough):
     """The enumerated space as blocks; inside a block the product (skeleton x word deviations x positions) is
     complete.  segs=(min,max) segments, words = max words per segment (command word included), wsel = which
     per-segment word-count tuples ('all' | 'eq2' = two words everywhere | 'uniform3' = three words everywhere), kf = max word/segment-feature deviations from the
-    all-`a` chain (kfmin..kf), tq = how many of the two multi-line triple-quoted words are in the alphabet, kp = max position deviations (kpmin..kp), rich = the larger position catalogue,
+    all-`a` chain (kfmin..kf), tq = how many of the two multi-line triple-quoted words are in the alphabet, argset = 'nest' / 'nest-rich': the deviating
+    words are the nested-bracket words instead of the plain alphabet, kp = max position deviations (kpmin..kp), rich = the larger position catalogue,
     exec = which agreeing pairs are also executed ('slice' | 'none' | 'all'); pairs with differing trees always are;
     prelude = the positions are those of the prelude family (prelude_positions) instead of the plain ones."""
     d = dict(kfmin=0, kpmin=0, wsel="all", rich=False, exec="slice", prelude=False, tq=2)
@@ -59,6 +60,9 @@ def blocks(thorough):
             # positions (trailing comment, empty line in front) next to continuations
             dict(id="eol-s2w2-kf1-kp1-layout", tq=1, segs=(1, 2), words=2, kf=1, kp=1, family="eol", fields=("cont", "tail", "blank")),
             dict(id="eol-s2w2-kf0-kp1", segs=(1, 2), words=2, kf=0, kp=1, kpmin=1, family="eol", exec="none"),
+            # nested plain brackets inside xonsh openers, in every argument slot of 1-3 segment chains
+            dict(id="nest-s2w2-kf1-kp1", segs=(1, 2), words=2, kf=1, kfmin=1, kp=1, argset="nest"),
+            dict(id="nest-s3w2-kf1-kp0", segs=(3, 3), words=2, wsel="eq2", kf=1, kfmin=1, kp=0, argset="nest", exec="none"),
             dict(id="eol-s2w2-kf0-kp2-layout", segs=(1, 2), words=2, kf=0, kp=2, kpmin=2, family="eol", fields=("cont", "tail", "blank", "pre", "post"), exec="none"),
         ]
     else:
@@ -75,6 +79,9 @@ def blocks(thorough):
             dict(id="prelude-s3w2-kf0-kp0-rich", segs=(3, 3), words=2, kf=0, kp=0, rich=True, prelude=True, exec="none"),
             dict(id="prelude-s2w2-kf0-kp1-rich", segs=(1, 2), words=2, kf=0, kp=1, kpmin=1, rich=True, prelude=True, exec="none"),
             dict(id="prelude-s2w2-kf1-kp1", tq=1, segs=(1, 2), words=2, wsel="eq2", kf=1, kfmin=1, kp=1, kpmin=1, prelude=True, exec="none"),
+            dict(id="nest-s2w3-kf1-kp1", segs=(1, 2), words=3, kf=1, kfmin=1, kp=1, argset="nest-rich"),
+            dict(id="nest-s3w2-kf1-kp1", segs=(3, 3), words=2, wsel="eq2", kf=1, kfmin=1, kp=1, argset="nest-rich", exec="none"),
+            dict(id="nest-s2w2-kf2-kp0", segs=(1, 2), words=2, kf=2, kfmin=2, kp=0, argset="nest-rich", exec="none"),
             dict(id="eol-s2w3-kf1-kp1-layout", segs=(1, 2), words=3, kf=1, kp=1, family="eol", fields=("cont", "tail", "blank", "pre", "post")),
             dict(id="eol-s2w2-kf1-kp1", tq=1, segs=(1, 2), words=2, kf=1, kp=1, kpmin=1, family="eol", exec="none"),
             dict(id="eol-s3w2-kf0-kp1", segs=(3, 3), words=2, kf=0, kp=1, family="eol", exec="none"),
@@ -92,12 +99,26 @@ def _wcounts(nseg, words, wsel):
         yield wc
 
 
-def _places(wc, tq=2):
+# words with plain ( ) [ ] { } NESTED inside a xonsh opener, one level and two levels deep.  Only words xonsh accepts
+# inside ![...] (probed: `!(..)`, `$[..]`, `![..]` are not argument words, a bare `(1)` is not a subprocess word)
+NEST_QUICK = [
+    "@(str(1))", "@((1, 2))", "@(xs[(0)])", "@([str(1)])", "$(ia @(str(1)))", "@$(ia @(str(1)))", "${str('V')}",
+    "@(str(int((1))))",
+]  # fmt: skip
+NEST_RICH = NEST_QUICK + [
+    "@({(1)})", "@({'k': (1)}['k'])", "@(ev.strip((' ')))", "${['V'][(0)]}", "${('V')}",
+    "@([(1, (2))][0])", "$(ia @(str((1))))", "@$(ia @(str((1))))", "${str(('V'))}", "@(str((1, (2))[0]))",
+]  # fmt: skip
+
+
+def _places(wc, tq=2, argset=None):
+    words = {"nest": NEST_QUICK, "nest-rich": NEST_RICH}[argset] if argset else ARGS + TQ_WORDS[:tq]
     out = []
     for i, w in enumerate(wc):
         for j in range(w - 1):
-            out += [("arg", i, j, a) for a in ARGS + TQ_WORDS[:tq]]
-        out += [("feat", i, f, True) for f in SEGFEATS]
+            out += [("arg", i, j, a) for a in words]
+        if not argset:
+            out += [("feat", i, f, True) for f in SEGFEATS]
     return out
 
 
@@ -105,7 +126,7 @@ def chains(b):
     """Every chain of block b, simplest first."""
     for nseg in range(b["segs"][0], b["segs"][1] + 1):
         for wc in _wcounts(nseg, b["words"], b["wsel"]):
-            places = _places(wc, b.get("tq", 2))
+            places = _places(wc, b.get("tq", 2), b.get("argset"))
             for ops in itertools.product(OPS, repeat=nseg - 1):
                 for r in range(b["kfmin"], b["kf"] + 1):
                     for combo in itertools.combinations(places, r):
@@ -566,6 +587,12 @@ def reductions(chain, pos):
                 c = _copy(chain)
                 c["segs"][i]["args"][j] = TQ_WORDS[0]
                 yield c, pos
+            if a in NEST_RICH:  # simplest nested word of the same opener, then the simplest nested word
+                for w in (next(x for x in NEST_RICH if x[:2] == a[:2]), NEST_RICH[0]):
+                    if w != a:
+                        c = _copy(chain)
+                        c["segs"][i]["args"][j] = w
+                        yield c, pos
     for i in range(n):
         for j in reversed(range(len(chain["segs"][i]["args"]))):
             c = _copy(chain)
